@@ -290,3 +290,7 @@ def run(rep, facts, tier):
         # the same rules on the security configuration (cfg arms differ in remove_writer_proxy / matched_reader_remove)
         for S in SIDES:
             run_side(rep, facts['security'], dict(S, name=S['name'] + '-security'))
+
+    # ------------------------------------------------------------ R11.6 crossed roles (shared lint, rdv/swaplint.py)
+    from rdv import swaplint
+    swaplint.run_rule(rep, facts['default'], 'R11.6', ['rtps::dp_event_loop', 'discovery::discovery_db', 'rtps::reader::Reader::update', 'rtps::writer::Writer::update', 'dds::statusevents'])
